@@ -368,14 +368,8 @@ func (pc *pCtx) p7Lockset(s *pSite, wantRaces, wantOrder bool) {
 			if len(inCtxs[fn]) >= 2 {
 				return fmt.Sprintf("the function runs in %d concurrent contexts", len(inCtxs[fn]))
 			}
-			for cn := range writes {
-				if inCtxs[fn][cn] {
-					continue
-				}
-				if writes[cn][al] && delivers[cn] {
-					return "the context " + strings.SplitN(cn, ":", 2)[1] + " also takes or refills it and calls the downstream"
-				}
-			}
+			// (a take in one function overtaken by a terminal notification of another context is an arrival order of
+			// its own - SampleWhen's tick against the completion of the source - and is not flagged)
 			return ""
 		}
 		var fns []*ssa.Function
